@@ -18,6 +18,10 @@ def register(cls):
     return cls
 
 
+class Unspecified(Exception):
+    """a callee was used where its contract says nothing: the caller's behaviour is unknown there"""
+
+
 class Case:
     """guard: z3 Bool over the pre-state; outcome: ('return', SVal or checker) | ('raise', exception class name)"""
 
@@ -94,7 +98,7 @@ class FunctionSpec:
             c = cs[idx]
             I.P.notes.append(("summary", spec.fq, c.name))
             if c.kind == "any":
-                raise OutOfSubset("call of %s outside its contract (case %s)" % (spec.fq, c.name))
+                raise Unspecified("%s is unspecified in case %s" % (spec.fq.split(":")[1], c.name))
             if c.effects is not None:
                 c.effects(I)
             if c.kind == "raise":
@@ -234,6 +238,8 @@ def verify(spec, tier="quick", summaries=None, only_props=None):
                 outcome = ("return", v)
             except PyRaise as e:
                 outcome = ("raise", e.exc)
+            except Unspecified as e:
+                outcome = ("unspecified", str(e))
             pathno[0] += 1
             k = pathno[0]
             obs = []
@@ -245,6 +251,11 @@ def verify(spec, tier="quick", summaries=None, only_props=None):
                 res.covers[c.name] = True
                 ob = Obligation("%s%s/post[%s]#p%d" % (short, vname, c.name, k), c.props or spec.props, "post")
                 if c.kind == "any":
+                    continue
+                if outcome[0] == "unspecified":
+                    ob.status = "unknown"
+                    ob.detail = outcome[1]
+                    obs.append(ob)
                     continue
                 if c.kind == "raise":
                     if outcome[0] == "raise" and exc_is(outcome[1], c.exc):
@@ -314,6 +325,8 @@ def verify(spec, tier="quick", summaries=None, only_props=None):
 
 
 def describe(outcome):
+    if outcome[0] == "unspecified":
+        return "unspecified (%s)" % outcome[1]
     if outcome[0] == "raise":
         return "raises %s" % outcome[1].o.clsname()
     return "returns %s" % short_repr(outcome[1])
